@@ -276,7 +276,27 @@ def sweep(tier):
 
 
 def random_selector(rng, n, allow_oob=True):
-    k = rng.choice(["int", "slice", "slice", "list", "array", "mask", "ell", "empty"])
+    k = rng.choice(["int", "slice", "slice", "list", "array", "mask", "ell", "empty", "block"])
+    if k == "block":
+        # structured row lists that look 'almost contiguous': a block of consecutive rows with the interior permuted (first and last
+        # row in place), or an ascending list with one repeat / one gap -- the inputs on which contiguity fast paths go wrong
+        if n < 3:
+            k = "list"
+        else:
+            a = rng.randint(0, n - 3)
+            b = rng.randint(a + 2, n - 1)
+            rows = list(range(a, b + 1))
+            u = rng.random()
+            if u < 0.4:
+                mid = rows[1:-1]
+                rng.shuffle(mid)
+                rows = [rows[0]] + mid + [rows[-1]]
+            elif u < 0.7:
+                j = rng.randrange(len(rows) - 1)
+                rows = rows[:j + 1] + [rows[j]] + rows[j + 2:]          # one row repeated, its successor skipped
+            elif u < 0.85:
+                del rows[rng.randrange(1, len(rows) - 1)]                # one gap
+            return rows if rng.random() < 0.5 else np.array(rows, dtype=np.int64)
     if k == "int":
         lo, hi = (-n - 1, n) if allow_oob else (-n, n - 1)
         if hi < lo:
